@@ -5,9 +5,25 @@
 
 `DoubleShiftQR::compute_reflector` writes through raw pointers into member arrays (`u = &m_ref_u.coeffRef(0, ind)`), which is outside
 the translator subset: it is hand-modelled in Model/DoubleShiftQR.lean on top of the two translated Gen.Refl kernels.
+
+  Gen.QRBuf   <- structural footprint of how the three classes ADDRESS their matrix/vector arguments (regenerated from the clang AST):
+     paramUses    every use of every output parameter (non-const `Matrix&` / `Vector&` / `ComplexMatrix&`, by-value
+                  `GenericMatrix` = Eigen::Ref<Matrix>) of every method, in source order: the member it is accessed through
+                  (`resize`, `setZero`, `noalias=` for a whole-object assignment, `coeffRef`, `row`, `col`, `block`, `data`, `[]`, ...),
+                  the argument text, the conditions of the enclosing `if`s and whether it sits in a loop;
+     ptrAssigns   every value given to a local raw pointer in those methods (`Y_col_i = &Y.coeffRef(0, i)`, `X1 = X0 + stride`);
+     strideCalls  every call of the private pointer-walking helpers `DoubleShiftQR::apply_PX/apply_XP(X, stride, ind)`: the matrix
+                  the block `X` is taken from and the stride argument (a local variable is replaced by its initializer);
+     computeResets every resize / whole-object initialisation of a data member in the three compute() methods, with the conditions of
+                  the enclosing ifs (an `if (size changed)` around one of them changes the table: c08_compute_resets);
+     qrMethods    the methods each class declares (TridiagQR must inherit, not re-declare, the apply_* family).
+  A size-dependent guard around `dest.resize/setZero`, a `Y.data()` walk, a pointer advanced by `rows()` change the tables and break
+  c08_dest_initialised / c08_apply_stride_aware / c08_dsqr_stride_calls.
 """
+import os, re
 from targets import T
 from xlate import XlateError
+import astdump
 
 HQR = 'LinAlg/UpperHessenbergQR.h'
 DSQR = 'LinAlg/DoubleShiftQR.h'
@@ -49,4 +65,177 @@ REFL = [
       ret_type='α × α × α'),
 ]
 
-MODULES = [('Givens', GIVENS, ''), ('Refl', REFL, '')]
+
+# ---------------------------------------------------------------- Gen.QRBuf: how the arguments are addressed
+QR_CLASSES = [('UpperHessenbergQR', HQR), ('TridiagQR', HQR), ('DoubleShiftQR', DSQR)]
+LOOPS = ('ForStmt', 'WhileStmt', 'DoStmt', 'CXXForRangeStmt')
+RESETS = ('resize', 'conservativeResize', 'resizeLike', 'setZero', 'setOnes', 'setConstant', 'fill', 'noalias', 'swap')
+
+def _lean_str(s): return '"' + s.replace('\\', '\\\\').replace('"', '\\"') + '"'
+
+def _src(header): return open(os.path.join(astdump.INC, 'Spectra', header)).read()
+
+def _text(src, node):
+    r = node.get('range', {}); b = r.get('begin', {}); e = r.get('end', {})
+    b = b.get('expansionLoc', b); e = e.get('expansionLoc', e)
+    if 'offset' not in b or 'offset' not in e: raise XlateError('no source range for a ' + str(node.get('kind')))
+    return re.sub(r'\s+', ' ', src[b['offset']: e['offset'] + e.get('tokLen', 0)]).strip()
+
+def _record(tu, cls):
+    for o in tu.objs:
+        if o.get('kind') == 'ClassTemplateDecl' and o.get('name') == cls:
+            rec = [c for c in o.get('inner', []) if c.get('kind') == 'CXXRecordDecl' and c.get('name') == cls]
+            if rec: return rec[0]
+    raise XlateError('class ' + cls + ' not found')
+
+def _methods(rec):
+    """(method node, is it a member function template) for every method with a body, in source order"""
+    out = []
+    for c in rec.get('inner', []):
+        if c.get('kind') == 'CXXMethodDecl' and any(x.get('kind') == 'CompoundStmt' for x in c.get('inner', [])): out.append(c)
+        elif c.get('kind') == 'FunctionTemplateDecl':
+            out += [x for x in c.get('inner', []) if x.get('kind') == 'CXXMethodDecl' and any(y.get('kind') == 'CompoundStmt' for y in x.get('inner', []))]
+    return out
+
+def _is_out_param(qt):
+    q = qt.replace('Spectra::', '')
+    q = re.sub(r'^\w+::', '', q)
+    if q.startswith('const '): return None
+    if re.fullmatch(r'(Matrix|Vector|ComplexMatrix|RowVector|Matrix3X) &', q): return q
+    if q == 'GenericMatrix' or re.fullmatch(r'Eigen::Ref<\s*Matrix\s*>', q): return 'GenericMatrix'
+    return None
+
+def _walk_ctx(n, f, guards=(), loop=False, parents=()):
+    """pre-order walk that knows the conditions of the enclosing if-branches (NOT for the condition expression itself) and loops"""
+    f(n, guards, loop, parents)
+    kids = [c for c in n.get('inner', []) if isinstance(c, dict)]
+    k = n.get('kind')
+    if k == 'IfStmt' and not n.get('hasInit') and not n.get('hasVar') and len(kids) >= 2:
+        _walk_ctx(kids[0], f, guards, loop, parents + (n,))
+        _walk_ctx(kids[1], f, guards + (('then', kids[0]),), loop, parents + (n,))
+        for e in kids[2:]: _walk_ctx(e, f, guards + (('else', kids[0]),), loop, parents + (n,))
+        return
+    if k in ('ConditionalOperator',) and len(kids) == 3:
+        _walk_ctx(kids[0], f, guards, loop, parents + (n,))
+        _walk_ctx(kids[1], f, guards + (('then', kids[0]),), loop, parents + (n,))
+        _walk_ctx(kids[2], f, guards + (('else', kids[0]),), loop, parents + (n,))
+        return
+    if k in ('IfStmt', 'SwitchStmt'):     # an if with an init-statement / a switch: everything below counts as guarded
+        for c in kids: _walk_ctx(c, f, guards + (('then', n),), loop, parents + (n,))
+        return
+    for c in kids: _walk_ctx(c, f, guards, loop or k in LOOPS, parents + (n,))
+
+def _strip(e):
+    while e.get('kind') in ('ParenExpr', 'ImplicitCastExpr') and e.get('inner'): e = e['inner'][0]
+    return e
+
+def _refers(e, name):
+    e = _strip(e)
+    return e.get('kind') == 'DeclRefExpr' and e.get('referencedDecl', {}).get('name') == name and e.get('referencedDecl', {}).get('kind') == 'ParmVarDecl'
+
+def qrbuf(tu, t):
+    uses = []; ptrs = []; strides = []; decls = []; resets = []
+    for cls, header in QR_CLASSES:
+        src = _src(header); rec = _record(tu, cls)
+        for m in _methods(rec):
+            mname = m.get('name')
+            params = [c for c in m.get('inner', []) if c.get('kind') == 'ParmVarDecl']
+            sig = mname + '(' + ', '.join(re.sub(r'^(Spectra::)?\w+::', '', re.sub(r'Spectra::\w+::', '', p_.get('type', {}).get('qualType', ''))) for p_ in params) + ')'
+            decls.append((cls, sig))
+            body = [c for c in m.get('inner', []) if c.get('kind') == 'CompoundStmt'][0]
+            outs = {p_.get('name'): _is_out_param(p_.get('type', {}).get('qualType', '')) for p_ in params}
+            outs = {k: v for k, v in outs.items() if v}
+            # local variables with an initializer (to resolve a stride argument such as `nrow`)
+            inits = {}
+            def collect(n, guards, loop, parents):
+                if n.get('kind') == 'VarDecl':
+                    init = [c for c in n.get('inner', []) if isinstance(c, dict) and 'kind' in c and not c['kind'].endswith('Comment')]
+                    if init: inits[n.get('name')] = init[-1]
+            _walk_ctx(body, collect)
+            def gtext(guards): return ' && '.join(('' if b == 'then' else 'not ') + '(' + _text(src, c) + ')' for b, c in guards)
+            def visit(n, guards, loop, parents):
+                k = n.get('kind')
+                # ---- uses of an output parameter
+                if k == 'DeclRefExpr' and n.get('referencedDecl', {}).get('kind') == 'ParmVarDecl' and n.get('referencedDecl', {}).get('name') in outs:
+                    pname = n['referencedDecl']['name']
+                    # climb through parentheses / implicit casts
+                    i = len(parents) - 1
+                    while i >= 0 and parents[i].get('kind') in ('ParenExpr', 'ImplicitCastExpr'): i -= 1
+                    par = parents[i] if i >= 0 else {}
+                    member = None; args = ''
+                    if par.get('kind') in ('CXXDependentScopeMemberExpr', 'MemberExpr') and par.get('inner') and _refers(par['inner'][0], pname):
+                        member = par.get('member', par.get('name'))
+                        call = parents[i - 1] if i >= 1 else {}
+                        if call.get('kind') in ('CallExpr', 'CXXMemberCallExpr') and call.get('inner') and call['inner'][0] is par:
+                            args = ', '.join(_text(src, a) for a in call['inner'][1:])
+                            # `P.noalias() = X` / `P.noalias() += X`: a whole-object assignment
+                            up = parents[i - 2] if i >= 2 else {}
+                            if member == 'noalias' and up.get('kind') in ('BinaryOperator', 'CompoundAssignOperator', 'CXXOperatorCallExpr') and up.get('inner') and up['inner'][0] is call:
+                                member = 'noalias' + up.get('opcode', '='); args = _text(src, up['inner'][1])
+                    elif par.get('kind') in ('ArraySubscriptExpr', 'CXXOperatorCallExpr') and par.get('inner'):
+                        kids = par['inner']
+                        if par['kind'] == 'ArraySubscriptExpr' and _refers(kids[0], pname): member = '[]'; args = _text(src, kids[1])
+                        elif par['kind'] == 'CXXOperatorCallExpr' and len(kids) >= 2 and _refers(kids[1], pname): member = 'operator' ; args = ', '.join(_text(src, a) for a in kids[2:])
+                    elif par.get('kind') in ('BinaryOperator', 'CompoundAssignOperator') and par.get('inner') and _refers(par['inner'][0], pname):
+                        member = 'whole' + par.get('opcode', '='); args = _text(src, par['inner'][1])
+                    if member is None: member = '(use:' + str(par.get('kind')) + ')'; args = _text(src, par) if 'range' in par else ''
+                    uses.append((cls, sig, pname, outs[pname], member, args, gtext(guards), loop))
+                # ---- compute(): (re)sizing / whole-object initialisation of the data members (object reuse)
+                if mname == 'compute' and k in ('CXXDependentScopeMemberExpr', 'MemberExpr') and n.get('inner') and n.get('member', n.get('name')) in RESETS:
+                    base = _text(src, n['inner'][0])
+                    if re.fullmatch(r'(this->)?m_\w+', base):
+                        fn = n.get('member', n.get('name')); call = parents[-1] if parents else {}; args = ''
+                        if call.get('kind') in ('CallExpr', 'CXXMemberCallExpr') and call.get('inner') and call['inner'][0] is n:
+                            args = ', '.join(_text(src, a) for a in call['inner'][1:])
+                            up = parents[-2] if len(parents) >= 2 else {}
+                            if fn == 'noalias' and up.get('kind') in ('BinaryOperator', 'CompoundAssignOperator', 'CXXOperatorCallExpr') and up.get('inner') and up['inner'][0] is call:
+                                fn = 'noalias' + up.get('opcode', '='); args = _text(src, up['inner'][1])
+                        resets.append((cls, sig, base.replace('this->', ''), fn, args, gtext(guards), loop))
+                # ---- values given to local raw pointers
+                if k == 'VarDecl' and n.get('type', {}).get('qualType', '').rstrip().endswith('*') and n.get('name') in inits:
+                    ptrs.append((cls, sig, n.get('name'), _text(src, inits[n['name']])))
+                if k in ('BinaryOperator', 'CompoundAssignOperator') and n.get('opcode') in ('=', '+=', '-=') and n.get('inner'):
+                    lhs = _strip(n['inner'][0])
+                    if lhs.get('kind') == 'DeclRefExpr' and lhs.get('type', {}).get('qualType', '').rstrip().endswith('*') and lhs.get('referencedDecl', {}).get('kind') == 'VarDecl':
+                        ptrs.append((cls, sig, lhs['referencedDecl'].get('name'), (n.get('opcode') if n.get('opcode') != '=' else '') + _text(src, n['inner'][1])))
+                if k == 'UnaryOperator' and n.get('opcode') in ('++', '--') and n.get('inner'):
+                    lhs = _strip(n['inner'][0])
+                    if lhs.get('kind') == 'DeclRefExpr' and lhs.get('type', {}).get('qualType', '').rstrip().endswith('*') and lhs.get('referencedDecl', {}).get('kind') == 'VarDecl':
+                        ptrs.append((cls, sig, lhs['referencedDecl'].get('name'), n.get('opcode')))
+                # ---- calls of the pointer-walking helpers with an explicit stride
+                if k == 'CallExpr' and n.get('inner'):
+                    callee = _strip(n['inner'][0]); cname = None
+                    if callee.get('kind') == 'UnresolvedMemberExpr' or callee.get('kind') == 'UnresolvedLookupExpr':
+                        txt = _text(src, callee); cname = txt.split('->')[-1].split('::')[-1].strip()
+                    elif callee.get('kind') in ('MemberExpr', 'CXXDependentScopeMemberExpr'): cname = callee.get('member', callee.get('name'))
+                    if cname in ('apply_PX', 'apply_XP') and len(n['inner']) == 4:
+                        x = _strip(n['inner'][1]); base = '?'
+                        if x.get('kind') == 'CallExpr' and x.get('inner'):
+                            bm = _strip(x['inner'][0])
+                            if bm.get('kind') in ('CXXDependentScopeMemberExpr', 'MemberExpr') and bm.get('member', bm.get('name')) == 'block' and bm.get('inner'): base = _text(src, bm['inner'][0])
+                        st = _strip(n['inner'][2]); sttxt = _text(src, st)
+                        if st.get('kind') == 'DeclRefExpr' and st.get('referencedDecl', {}).get('kind') == 'VarDecl' and st['referencedDecl'].get('name') in inits:
+                            sttxt = _text(src, inits[st['referencedDecl']['name']])
+                        strides.append((cls, sig, cname, base, sttxt))
+            _walk_ctx(body, visit)
+    if not uses: raise XlateError('no output-parameter uses found in the QR helper classes')
+    def b(x): return 'true' if x else 'false'
+    s_ = '-- (class, method(signature), parameter, parameter type, member the parameter is accessed through, arguments as written,\n'
+    s_ += '--  conditions of the enclosing if-branches ("" = unconditional), inside a loop), in source order\n'
+    s_ += 'def paramUses : List (String × String × String × String × String × String × String × Bool) := [\n' + ',\n'.join(
+        '  (' + ', '.join(_lean_str(x) for x in u[:7]) + ', ' + b(u[7]) + ')' for u in uses) + ']\n\n'
+    s_ += '-- (class, method, local raw pointer, value it is given (`+=x`, `++` for an advance)), in source order\n'
+    s_ += 'def ptrAssigns : List (String × String × String × String) := [\n' + ',\n'.join('  (' + ', '.join(_lean_str(x) for x in u) + ')' for u in ptrs) + ']\n\n'
+    s_ += '-- (class, calling method, helper, matrix the block argument is taken from, stride argument with a local variable replaced by its initializer)\n'
+    s_ += 'def strideCalls : List (String × String × String × String × String) := [\n' + ',\n'.join('  (' + ', '.join(_lean_str(x) for x in u) + ')' for u in strides) + ']\n\n'
+    s_ += '-- compute() of each class: every resize / whole-object (re)initialisation of a data member: (class, method, data member, call,\n'
+    s_ += '-- arguments (right-hand side for `noalias=`), conditions of the enclosing if-branches, inside a loop), in source order\n'
+    s_ += 'def computeResets : List (String × String × String × String × String × String × Bool) := [\n' + ',\n'.join(
+        '  (' + ', '.join(_lean_str(x) for x in u[:6]) + ', ' + b(u[6]) + ')' for u in resets) + ']\n\n'
+    s_ += '-- every method with a body each class declares itself\n'
+    s_ += 'def qrMethods : List (String × String) := [\n' + ',\n'.join('  (' + ', '.join(_lean_str(x) for x in u) + ')' for u in decls) + ']\n'
+    return s_
+
+QRBUF = [dict(lean='qrbuf', header=HQR, custom=qrbuf, path='(argument footprint of UpperHessenbergQR / TridiagQR / DoubleShiftQR)')]
+
+MODULES = [('Givens', GIVENS, ''), ('Refl', REFL, ''), ('QRBuf', QRBUF, '')]
